@@ -522,8 +522,17 @@ func (c *Ctx) ruleGoroutineInventory(rule string) {
 				c.Rep.check(ok, rule, g.body.Short(), "dispatcher not released by Stop", c.P.pos(n), "signal channel closed by closeChannels, which every Stop outcome performs", "the goroutine ranging over the signal channel is not released: Stop does not always close the channel")
 			case isNamed(info.TypeOf(ch), "") && false:
 			default:
-				// context Done, node channel, response channel, other
-				what := c.describeChan(info, ch)
+				// context Done, node channel, response channel, other. A channel that is a parameter of the goroutine's
+				// function is what the go statement passed for it
+				dinfo, dch := info, ch
+				if o := rootIdent(info, ch); o != nil {
+					if _, isId := ast.Unparen(ch).(*ast.Ident); isId {
+						if idx := paramIndex(g.body, o); idx >= 0 && idx < len(g.stmt.Call.Args) {
+							dinfo, dch = g.in.Info(), g.stmt.Call.Args[idx]
+						}
+					}
+				}
+				what := c.describeChan(dinfo, dch)
 				switch what {
 				case "ctx.Done":
 					ok := false
@@ -606,9 +615,6 @@ func (c *Ctx) ruleGoroutineInventory(rule string) {
 
 // isSignalParam: ch is the parameter of the goroutine literal bound to the worker's signal channel.
 func (c *Ctx) isSignalParam(g goSite, ch ast.Expr) bool {
-	if g.body.Lit == nil {
-		return false
-	}
 	info := g.body.Info()
 	o := rootIdent(info, ch)
 	if o == nil {
@@ -633,8 +639,12 @@ func (c *Ctx) isSignalParam(g goSite, ch ast.Expr) bool {
 func (c *Ctx) describeChan(info *types.Info, ch ast.Expr) string {
 	ch = ast.Unparen(ch)
 	if call, ok := ch.(*ast.CallExpr); ok {
-		if resolveCallee(info, call).Key == "context.Context.Done" {
+		k := resolveCallee(info, call).Key
+		if k == "context.Context.Done" {
 			return "ctx.Done"
+		}
+		if strings.HasSuffix(k, "helpers.Response.Read") {
+			return "helpers.Response.ch"
 		}
 	}
 	if fk := selField(info, ch); fk != "" {
